@@ -17,7 +17,6 @@ multi-byte text, grow) / drops / delays; messages are injected through WebSocket
   control   pings and pongs arrive at the other peer with their payload, in order
   close     flow.websocket.close_code / close_reason / closed_by_client are what the closing peer sent
 """
-import wsproto
 import wsproto.events as wev
 from wsproto.connection import Connection, ConnectionType
 from wsproto.extensions import PerMessageDeflate
@@ -25,7 +24,7 @@ from wsproto.frame_protocol import CloseReason, Opcode
 
 from mitmproxy import http
 from mitmproxy.connection import ConnectionState
-from mitmproxy.proxy import commands, events
+from mitmproxy.proxy import events
 from mitmproxy.proxy.layers import websocket as lws
 from mitmproxy.websocket import WebSocketData, WebSocketMessage
 
@@ -36,7 +35,7 @@ from vf.ref import c28_wsframes as wf
 PROPERTY = "C28"
 LEVEL = "exploration"
 ENGINE = "sansio"
-BUDGET = {"quick": (260, 20), "thorough": (4000, 230)}
+BUDGET = {"quick": (600, 18), "thorough": (12000, 220)}
 WORKERS = {"quick": 4, "thorough": 16}
 REQUIRED = ["source", "delivered", "frames", "control", "close", "deflate_cases", "edited_messages", "injected_messages", "dropped_messages", "big_messages", "fragmented_messages"]
 TECHNIQUE = "runtime monitoring: sans-io schedule exploration + differential oracle (wsproto peers decode the wire, own RFC 6455/7692 encoder) against sender truth and recorded flow"
@@ -192,27 +191,6 @@ def build_script(r, is_client, ext, encoder):
     stream = bytearray()
     actions = []
     n_msgs = r.choice([0, 1, 1, 2, 3, 5])
-    inflater = [None]
-
-    def decoded_frames(wire):
-        """what a per-frame decoder obtains for each data frame of this message (own inflate when compressed)"""
-        frames, rest = wf.parse_frames(wire)
-        assert not rest
-        data_frames = [f for f in frames if f["opcode"] in (wf.OP_CONT, wf.OP_TEXT, wf.OP_BIN)]
-        if not (data_frames and data_frames[0]["rsv1"]):
-            return [f["payload"] for f in data_frames]
-        import zlib
-
-        if inflater[0] is None or nct:
-            inflater[0] = zlib.decompressobj(-wbits)
-        out = []
-        for f in data_frames:
-            piece = inflater[0].decompress(f["payload"])
-            if f["fin"]:
-                piece += inflater[0].decompress(b"\x00\x00\xff\xff")
-            out.append(piece)
-        return out
-
     def control(kind):
         payload = bytes(r.getrandbits(8) for _ in range(r.choice([0, 1, 5, 125])))
         if raw:
@@ -262,7 +240,6 @@ def build_script(r, is_client, ext, encoder):
                 "midchar": is_text and any(not wf.char_boundary_ok(data, c) for c in _cum(frags)[:-1]),
                 "frames_meaningful": not deflate,
                 "ctl_inside": ctl_inside,
-                "decoded_frags": decoded_frames(bytes(stream[start:])),
             }
         )
     if r.random() < 0.2:
@@ -355,25 +332,10 @@ def make_policy(r, log):
     return policy
 
 
-def refrag_boundaries(n_new, orig_lengths):
-    """Where an intermediary following 'reuse the original lengths if the size is unchanged, else 4000-byte chunks' cuts."""
-    if orig_lengths is not None and n_new == sum(orig_lengths):
-        return _cum_int(orig_lengths)[:-1]
-    return list(range(4000, n_new, 4000)) if n_new > 4000 else []
-
-
-def _cum_int(xs):
-    out, t = [], 0
-    for x in xs:
-        t += x
-        out.append(t)
-    return out
-
-
 def classify(kind, info):
     if info.get("ctl_inside_compressed"):
         return "control-frame-inside-compressed-fragmented-message"
-    if kind in ("delivered-differs-from-recorded", "recorded-differs-from-sent") and info.get("text") and info.get("cut_inside_char"):
+    if kind in ("delivered-differs-from-recorded", "recorded-differs-from-sent") and info.get("text") and info.get("differs_only_by_replacement_chars"):
         if info.get("modified") or info.get("injected") or info.get("inject_during_fragmented_message"):
             return "modified-or-injected-text-refragmented-inside-multibyte-character"
     if kind == "recorded-differs-from-sent" and info.get("inject_during_fragmented_message"):
@@ -382,6 +344,8 @@ def classify(kind, info):
         return "message-injected-while-fragmented-message-from-same-side-in-progress"
     if kind == "frame-boundaries-changed" and info.get("midchar"):
         return "unmodified-text-fragment-boundary-inside-multibyte-character-shifted"
+    if kind == "frame-boundaries-changed" and info.get("inject_during_fragmented_message"):
+        return "message-injected-while-fragmented-message-from-same-side-in-progress"
     return None
 
 
@@ -540,7 +504,7 @@ def run_case(ctx, opts):
             info = {**base_info, "inject_during_fragmented_message": inflight}
             for w, g in zip(want, got):
                 if (w["text"], w["content"], w["injected"]) != (g["text"], g["content"], g["injected"]):
-                    info.update(text=w["text"], injected=w["injected"], cut_inside_char=w["text"] and w["injected"] and len(w["content"]) > 4000 and only_fffd_diff(w["content"], g["content"]))
+                    info.update(text=w["text"], injected=w["injected"], differs_only_by_replacement_chars=w["text"] and w["injected"] and len(w["content"]) > 4000 and only_fffd_diff(w["content"], g["content"]))
                     break
             ctx.violation(
                 "recorded-differs-from-sent",
@@ -561,10 +525,6 @@ def run_case(ctx, opts):
                 if w != g:
                     m = live[idx]
                     pre = next((p for p in d.pre if p["obj"] is m), None)
-                    orig = None
-                    if pre is not None and not m.injected and action_of:
-                        a = action_of.get(id(m))
-                        orig = wf.aligned_lengths(a["decoded_frags"]) if (a and a["text"]) else ([len(x) for x in a["decoded_frags"]] if a else None)
                     info = {
                         **base_info,
                         "inject_during_fragmented_message": inflight,
@@ -572,7 +532,7 @@ def run_case(ctx, opts):
                         "text": w[0],
                         "modified": pre is not None and pre["content"] != bytes(m.content),
                         "injected": m.injected,
-                        "cut_inside_char": w[0] and g[0] and only_fffd_diff(w[1], g[1]),
+                        "differs_only_by_replacement_chars": w[0] and g[0] and only_fffd_diff(w[1], g[1]),
                     }
                     break
             ctx.violation(
@@ -582,11 +542,9 @@ def run_case(ctx, opts):
             )
 
         # ---- frames: unmodified messages keep the sender's frame payload lengths
-        by_obj = {id(p["obj"]): p for p in d.pre}
         live = [m for m in rec if not m.dropped]
         if len(live) == len(far.rx_messages) and action_of is not None:
             for m, (t, c, frames) in zip(live, far.rx_messages):
-                p = by_obj.get(id(m))
                 act, changed = polog.get(id(m), ("?", False))
                 big = len(m.content) > 4000
                 a = action_of.get(id(m))
@@ -609,7 +567,7 @@ def run_case(ctx, opts):
                     ctx.violation(
                         "frame-boundaries-changed",
                         {**witness, "direction_from": side, "sent_frames": a["frags"], "received_frames": frames, "text": a["text"], "midchar": a["midchar"]},
-                        classify("frame-boundaries-changed", {**base_info, "midchar": a["midchar"] and frames == wf.aligned_lengths(a["frag_bytes"])}),
+                        classify("frame-boundaries-changed", {**base_info, "inject_during_fragmented_message": inflight, "midchar": a["midchar"] and frames == wf.aligned_lengths(a["frag_bytes"])}),
                     )
         n_dropped = sum(1 for m in rec if m.dropped)
         if n_dropped:
@@ -655,41 +613,34 @@ def only_fffd_diff(want: bytes, got: bytes) -> bool:
         w, g = want.decode("utf-8"), got.decode("utf-8")
     except UnicodeDecodeError:
         return False
-    i = j = 0
-    replaced = 0
-    while i < len(w) and j < len(g):
-        if g[j] == "\ufffd":
-            k = j
-            while k < len(g) and g[k] == "\ufffd":
-                k += 1
-            run = k - j
-            # the run stands for adjacent items of w: an existing U+FFFD (exactly 1) or a split multi-byte character (2 .. len(bytes))
-            n, lo, hi, nrep, found = 0, 0, 0, 0, False
-            while i + n < len(w) and (w[i + n] == "\ufffd" or len(w[i + n].encode()) > 1):
-                if w[i + n] == "\ufffd":
-                    lo += 1
-                    hi += 1
-                else:
-                    lo += 2
-                    hi += len(w[i + n].encode())
-                    nrep += 1
-                n += 1
-                if lo > run:
-                    break
-                if run <= hi and ((i + n == len(w) and k == len(g)) or (i + n < len(w) and k < len(g) and w[i + n] == g[k])):
-                    found = True
-                    break
-            if not found:
+    F = "\ufffd"
+
+    def match(i, j, depth):
+        while i < len(w) and j < len(g):
+            if g[j] == F:
+                k = j
+                while k < len(g) and g[k] == F:
+                    k += 1
+                run = k - j
+                # the run stands for n >= 1 adjacent items of w: an existing U+FFFD (1, or 2-3 if itself split) or a split
+                # multi-byte character (2 .. len(bytes) replacement characters); ambiguous with repeated characters -> backtrack
+                n, lo, hi = 0, 0, 0
+                while i + n < len(w) and (w[i + n] == F or len(w[i + n].encode()) > 1):
+                    lo += 1 if w[i + n] == F else 2
+                    hi += 3 if w[i + n] == F else len(w[i + n].encode())
+                    n += 1
+                    if lo > run:
+                        break
+                    if run <= hi and depth < 200 and match(i + n, k, depth + 1):
+                        return True
                 return False
-            replaced += nrep
-            i += n
-            j = k
-        elif w[i] == g[j]:
+            if w[i] != g[j]:
+                return False
             i += 1
             j += 1
-        else:
-            return False
-    return i == len(w) and j == len(g) and replaced > 0
+        return i == len(w) and j == len(g)
+
+    return w != g and match(0, 0, 0)
 
 
 def _is_utf8(b):
